@@ -194,42 +194,7 @@ def run(ctx):
         r3.ok("cleanup releases stalled objects", "objects.%s in %s" % (method_name(rem_obj[0]), rem_obj[0].func.root().path.split("::")[-1]), rem_obj[0].loc)
     else:
         r3.violation("cleanup releases stalled objects", "Receiver::cleanup never removes from `objects`", loc(cl.sp))
-    ret_fdt = [s for s, ai, mut in calls_on_field(prog, RC, "fdt_receivers", funcs=[prog.funcs[p] for p in reach]) if method_name(s) in ("retain", "remove", "extract_if")]
-    if not ret_fdt:
-        r3.violation("cleanup releases FDT instances", "Receiver::cleanup never removes from `fdt_receivers`", loc(cl.sp))
-    for s in ret_fdt:
-        if method_name(s) != "retain":
-            r3.ok("cleanup releases FDT instances (%s)" % method_name(s), "", s.loc)
-            continue
-        clos = [z[1] for z in walk(s.expr) if z[0] == "closure" and z[1] in prog.funcs]
-        keeps_receiving_forever = False
-        for c in clos:
-            cf = prog.funcs[c]
-            csl = Slicer(cf.body)
-            allsrc = set()
-            txt = ""
-            for bb, e in ret_assign_blocks(cf.body, lambda e: True):
-                allsrc |= csl.sources(e)
-            consts = [str(k) for k in allsrc]
-            mentions_receiving = any("Receiving" in k for k in consts) or "Receiving" in " ".join(show(e, 400) for _, e in ret_assign_blocks(cf.body, lambda e: True)) \
-                or any("Receiving" in show(X(cf.body).operand(b.term.discr), 300) for b in cf.body.blocks if b.term.k == "switch")
-            # any promoted constant FDTState::Receiving compared in the closure
-            for blk in cf.body.blocks:
-                t = blk.term
-                if t.k == "call":
-                    ex = show(csl.x.call_expr(blk.i, t, csl.x.depth), 300)
-                    if "Receiving" in ex:
-                        mentions_receiving = True
-            timey = any(re.search(r"elapsed|duration_since|Instant|SystemTime|now|timeout|reception_start_time|last_activity", k) for k in allsrc) or \
-                any(re.search(r"elapsed|duration_since", (t.callee_path() or "")) for _, t in cf.body.calls())
-            if mentions_receiving and not timey:
-                keeps_receiving_forever = True
-        key = "cleanup releases unfinished FDT instances"
-        if keeps_receiving_forever:
-            r3.violation(key, "cleanup_fdt retains every instance whose state is Receiving with no time condition: FDT instance ids that "
-                              "never complete (lost packets, hostile ids) are kept forever, one ObjectReceiver each", s.loc)
-        else:
-            r3.ok(key, "retain predicate is time-bounded for unfinished instances", s.loc)
+    fdt_retain_rule(ctx, r3, reach)
     mc = prog.fn(MR + "::cleanup")
     rs = [s for s, ai, mut in calls_on_field(prog, MR, "alc_receiver", funcs=[mc]) if method_name(s) in ("retain", "remove")]
     if rs:
@@ -324,3 +289,64 @@ def bound_for(ctx, prog, adt, field, s, m):
         return False, ("the FDT reassembly buffer grows by every block written for TOI 0 with no bound other than the transfer length the "
                        "packets themselves announce (up to 2^48): memory is bounded by traffic, not by configuration")
     return False, "no bound recorded for %s" % short
+
+
+def fdt_retain_rule(ctx, r3, reach=None):
+    """decision table of the retain predicate of Receiver::cleanup_fdt over the FDT instance states (shared with C04.R6)"""
+    prog = ctx.prog
+    cl = prog.fn(RC + "::cleanup")
+    if reach is None:
+        reach = prog.reachable_from([cl.path])
+    ret_fdt = [s for s, ai, mut in calls_on_field(prog, RC, "fdt_receivers", funcs=[prog.funcs[p] for p in reach]) if method_name(s) in ("retain", "remove", "extract_if")]
+    if not ret_fdt:
+        r3.violation("cleanup releases FDT instances", "Receiver::cleanup never removes from `fdt_receivers`", loc(cl.sp))
+    for s in ret_fdt:
+        if method_name(s) != "retain":
+            r3.ok("cleanup releases FDT instances (%s)" % method_name(s), "", s.loc)
+            continue
+        clos = [z[1] for z in walk(s.expr) if z[0] == "closure" and z[1] in prog.funcs]
+        key = "cleanup releases unfinished FDT instances"
+        if len(clos) != 1:
+            r3.violation(key, "retain predicate is not a single closure", s.loc)
+            continue
+        from .. import polarity
+        cf = prog.funcs[clos[0]]
+        ctx.analysed(cf.path)
+        t = polarity.Table(cf, name_sign={"recv": r"FDTState::Receiving", "comp": r"FDTState::Complete", "err": r"FDTState::Error", "exp": r"FDTState::Expired"},
+                           name_bool={"has_timeout": r"object_timeout\) is Some$", "timed_out": r"FdtReceiver::is_timeout"})
+        found = t.labels_found()
+        if not ({"recv", "comp", "err", "exp"} & found):
+            r3.violation(key, "the retain predicate of cleanup_fdt does not look at the instance's state (conditions: %s ; %s)" % (
+                [polarity.show_key(k) for k in t.seen_sign][:5], list(t.seen_bool)[:5]), s.loc)
+            continue
+        nsc = 0
+        for sc in t.scenarios():
+            eqs = [l for l in ("recv", "comp", "err", "exp") if l in sc and sc[l] == 0]
+            if len(eqs) > 1:
+                continue   # a state equals one variant only
+            state = eqs[0] if eqs else "other"
+            # the variants the predicate does not mention are covered by "other"
+            if state == "recv":
+                exp = {True} if not sc.get("has_timeout", False) else ({False} if sc.get("timed_out", False) else {True})
+                if "has_timeout" not in sc or "timed_out" not in sc:
+                    exp = None
+            elif state == "comp":
+                exp = {True}
+            else:
+                exp = {False}
+            rets = set(r for r, _ in t.results(sc))
+            k2 = "cleanup_fdt keeps [%s]" % ", ".join("%s=%s" % (k, {-1: "!=", 0: "==", 1: "!="}.get(v, v) if not isinstance(v, bool) else v) for k, v in sorted(sc.items()))
+            nsc += 1
+            if exp is None:
+                r3.violation(k2, "an instance still Receiving is kept without a timeout test: FDT instance ids that never complete are kept for ever", s.loc)
+            elif rets == exp:
+                r3.ok(k2, "%s" % sorted(rets), s.loc)
+            else:
+                what = {"recv": "still Receiving", "comp": "Complete", "err": "in state Error", "exp": "Expired", "other": ("in a state that is neither Receiving nor Complete (Error / Expired)" if "comp" in sc else
+                                  "in state Error (the predicate does not tell it from Complete)")}[state]
+                r3.violation(k2, "an FDT instance %s is %s by cleanup_fdt (expected %s): %s" % (
+                    what, "kept" if True in rets else "released", "kept" if True in exp else "released",
+                    "failed or expired instances accumulate with traffic and shadow later valid copies of the same instance id" if True in rets and False in exp
+                    else "a usable instance is thrown away"), s.loc)
+        if nsc:
+            r3.ok(key, "retain predicate decided over %d state/timeout scenarios" % nsc, s.loc)
